@@ -20,6 +20,7 @@ RULE = (
     "with kwargs wrapped in autograd.checkpoint - value bitwise equal; reverse-mode derivatives of order 1-3 (incl. mixed partials "
     "between checkpointed arguments) equal to the un-wrapped function to 1e-12. Non-trivial = >= 2 differentiated positions at >= 2 "
     "distinct trace levels, or a None / argnums= / 'same' registration; checkpoint at order >= 2; distinct by configuration."
+    ' Positional-style defvjp_argnums / defjvp_argnums rules; checkpointed blocks closing over traced values (same level: open finding).'
 )
 
 VJP_APIS = ["defvjp", "defvjp_none", "defvjp_argnums_kw", "defvjp_argnum", "defvjp_argnums", "no_vjp", "defvjp_argnums_positional"]
